@@ -4,5 +4,6 @@ CONSTANTS
   MaxTamper = 3
   HashModel = "tuple"
   PLens = {0}
+  DataLens = {0}
 INVARIANTS AcceptIffUnchanged IdAgreement NoBothEnds OnlyRightful Emit
 CHECK_DEADLOCK FALSE
